@@ -1,6 +1,7 @@
 import SV.Wire
 import SV.Model.Plan
 import SV.Model.Stateful
+import SV.Model.StatefulMachine
 open SV SV.Wire SV.Model.Engine SV.Model.Plan
 
 def decStatus : Json → Except String Status
@@ -140,8 +141,99 @@ def decEnding : Json → Except String RunEnd
   | .str "otherException" => pure .otherException
   | _ => .error "bad ending"
 
+
+/-! ### the instrumented state machine (SV.Model.StatefulMachine) -/
+namespace SMD
+open SV.Model.SM
+
+def decCheck (j : Json) : Except String CheckOut := do
+  match j with
+  | .str "pass" => return .pass
+  | .str "crash" => return .crash
+  | .arr fs => return .fail (← fs.mapM asNat)
+  | _ => .error "bad check outcome"
+
+def decCall (j : Json) : Except String Call := do
+  match j with
+  | .str "raises" => return .raises
+  | .str "interrupted" => return .interrupted
+  | .str "baseExc" => return .baseExc
+  | .arr cs => return .responds (← cs.mapM decCheck)
+  | _ => .error "bad call"
+
+def decStep (j : Json) : Except String Step := do
+  return ⟨← asNat (← field j "case"), ← asBool (j.getD "stopBefore" (.bool false)), ← decCall (← field j "call")⟩
+
+def decScenario (j : Json) : Except String Scenario := do
+  return ⟨← asBool (j.getD "setupFails" (.bool false)), ← asList decStep (← field j "steps")⟩
+
+def decHyp (j : Json) : Except String HypEnd := do
+  match j with
+  | .str "ok" => return .ok | .str "skipTest" => return .skipTest | .str "flaky" => return .flaky
+  | .str "unsatisfiable" => return .unsatisfiable | .str "otherException" => return .otherException
+  | .arr fs => return .failureGroup (← fs.mapM asNat)
+  | _ => .error "bad hyp ending"
+
+def decRun (j : Json) : Except String Run := do
+  return ⟨← asList decScenario (← field j "scens"), ← decHyp (← field j "hyp"), ← asBool (j.getD "stopBeforeSuite" (.bool false))⟩
+
+def decSMVariant : Json → Except String SV.Model.SM.Variant
+  | .str "asFound" => pure .asFound | .str "repaired" => pure .repaired | _ => .error "bad variant"
+
+def encCached : Cached → Json
+  | .none_ => .str "none" | .failure => .str "failure" | .exception => .str "exception" | .baseExc => .str "baseExc"
+
+def encRes : StepRes → Json
+  | .returned => .str "returned" | .returnedNone => .str "returnedNone" | .failureGroup fs => .arr (fs.map jnat)
+  | .exception => .str "exception" | .ki => .str "ki" | .baseExc => .str "baseExc"
+
+def encEnd : ScenEnd → Json
+  | .clean => .str "clean" | .failureGroup fs => .arr (fs.map jnat) | .exception => .str "exception"
+  | .ki => .str "ki" | .baseExc => .str "baseExc"
+
+def encMSt (m : MSt) : Json :=
+  jobj [("ctl", encCtl m.ctl), ("seenRun", .arr (m.seenRun.map jnat)), ("seenSuite", .arr (m.seenSuite.map jnat)),
+        ("stepStatus", match m.stepStatus with | some s => encStatus s | none => .null),
+        ("completed", jnat m.completed), ("outcomes", .arr (m.outcomes.map fun (c, o) => .arr [jnat c, encCached o])),
+        ("out", .arr (m.out.map encSEv)), ("recorded", .arr (m.recorded.map fun (i, f) => .arr [jnat i, jnat f])),
+        ("calls", jnat m.calls)]
+
+def initSt (a : Json) : Except String MSt := do
+  let mf ← asOpt asNat (optField a "maxFailures")
+  return { ctl := { maxFailures := mf }, unique := ← asBool (a.getD "unique" (.bool false)),
+           maxExamples := ← asNat (a.getD "maxExamples" (jnat 100)) }
+
+/-- raw machine operations on one context: {"op":"setup","fails":b} | {"op":"step",...} | {"op":"teardown"} -/
+def applyOps : MSt → List Json → Except String (MSt × List Json)
+  | m, [] => pure (m, [])
+  | m, j :: rest => do
+    match ← asStr (← field j "op") with
+    | "setup" =>
+      let r := setup m (← asBool (j.getD "fails" (.bool false)))
+      let (m', outs) ← applyOps r.1 rest
+      return (m', Json.bool r.2 :: outs)
+    | "step" =>
+      let r := step m (← decStep j)
+      let (m', outs) ← applyOps r.1 rest
+      return (m', encRes r.2 :: outs)
+    | "teardown" =>
+      let (m', outs) ← applyOps (teardown m) rest
+      return (m', Json.null :: outs)
+    | o => .error s!"bad machine op {o}"
+
+end SMD
+
 def handle : Handler := fun op a => do
   match op with
+  | "sm_ops" =>
+    let (m, outs) ← SMD.applyOps (← SMD.initSt a) (← asArr (← field a "ops"))
+    return jobj [("state", SMD.encMSt m), ("results", .arr outs)]
+  | "sm_thread" =>
+    let v ← SMD.decSMVariant (← field a "variant")
+    let runs ← asList SMD.decRun (← field a "runs")
+    let m0 ← SMD.initSt a
+    let m := SV.Model.SM.thread v 0 m0 runs
+    return jobj [("state", SMD.encMSt m), ("suites", jnat (SV.Model.SM.suitesRun v 0 m0 runs))]
   | "stateful_thread" =>
     let suites ← (← asArr (← field a "suites")).mapM fun s => do
       return (⟨← asList decSEv (← field s "scen"), ← decEnding (← field s "ending"),
